@@ -30,6 +30,21 @@ Proof. unfold server_accepts. intros ->. destruct (t_client_cert c); cbn; intros
 Theorem no_client_ca_never_asks c : t_client_ca c = false -> server_asks c = false /\ server_accepts c = true.
 Proof. unfold server_asks, server_accepts. intros ->. auto. Qed.
 
+(* ---- name selection ---- *)
+Theorem sni_overrides url hn n : select_name url hn (Some n) = n.
+Proof. reflexivity. Qed.
+Theorem hostname_overrides_url url h : select_name url (Some h) None = h.
+Proof. reflexivity. Qed.
+Theorem url_host_by_default url : select_name url None None = url.
+Proof. reflexivity. Qed.
+
+(* with verification on, the client reaches the server iff the SELECTED name is one of the certificate's *)
+Theorem name_case_iff url hn sni : name_case_reaches url hn sni false = true <-> select_name url hn sni = 1.
+Proof.
+  unfold name_case_reaches, reaches, client_accepts, server_accepts. cbn [t_skip t_server_cert t_name_ok t_client_ca chain_valid orb andb negb].
+  rewrite Bool.andb_true_r. apply N.eqb_eq.
+Qed.
+
 (* ---- identity swap ---- *)
 Fixpoint final (s : istate) (es : list iev) : istate :=
   match es with [] => s | e :: r => final (fst (istep s e)) r end.
